@@ -222,7 +222,7 @@ func runC01(c *report.Ctx) {
 	ruleByteOrder(c, []string{pkgTxmgr}, 3)
 	ruleLayout(c, []string{"unspent-key", "credit-key", "outpoint-key", "txrecord-key", "credit-value", "unspent-value", "txrecord-value", "block-value", "block-key", "debit-value", "synced-block-value", "synced-to-value", "address-value", "balance-value"}, 40)
 	ruleRelevantIndex(c, 4)
-	ruleNoMemoryTipUnderUpdate(c)
+	ruleNoMemoryTipUnderUpdate(c, false)
 	ruleFlagByteRMW(c)
 	ruleCursorPullback(c)
 	ruleNotificationsQueued(c)
